@@ -462,6 +462,12 @@ def rule_sign(m):
                 cands = [g for g in m.by_tname.get(st[1], []) if g.unit is f.unit] or m.by_tname.get(st[1], [])
                 if cands:
                     lam = cands[0]
+            if st[0] == 'ctor' and st[1].startswith(NS):
+                # a named function object of the library: its call operator is the parser
+                ops = [g for g in m.fns if g.record == st[1] and g.name == 'operator()' and not g.is_lambda]
+                ops = [g for g in ops if g.unit is f.unit] or ops
+                if len({g.key for g in ops}) == 1:
+                    lam = ops[0]
         res.sites += 1
         if lam is None:
             res.broken('F-IO.SIGN: the index parser passed by %s is not a lambda or a library function' % disp)
@@ -1029,12 +1035,37 @@ def rule_schema_binary(m):
 
             def label_ok(lab):
                 return lab[0] == 'mcall' and lab[1].endswith('::getEdgeLabel') and lab[2] in graphs and lab[3][:2] == (first, second)
+            helper_calls = set()
             for nid in sorted(body):
                 n = f.nodes[nid]
                 if n['k'] == 'CallExpr' and 'callee' in n and f.unit.decl(n['callee'])['tname'] == WRITE:
                     a = [tt.t(x) for x in n['args']]
                     seq.append(('prim', 'first' if a[1] == first else 'second' if a[1] == second else '?',
                                 f.unit.function_for_decl(n['callee']).targs if f.unit.function_for_decl(n['callee']) else '?'))
+                elif n['k'] == 'CallExpr' and 'callee' in n and f.unit.decl(n['callee'])['tname'].startswith(IO) and \
+                        f.unit.function_for_decl(n['callee']) is not None and \
+                        ('var', sd) in [tt.t(x) for x in n['args']]:
+                    # a record helper: a straight-line io function that receives the stream and writes fields of its arguments
+                    from .rules_pair import subst
+                    H = f.unit.function_for_decl(n['callee'])
+                    htt = Terms(H)
+                    a = [tt.t(x) for x in n['args']]
+                    sub = {('var', prm): arg for prm, arg in zip(H.params, a)}
+                    hs = [('var', prm) for prm, arg in zip(H.params, a) if arg == ('var', sd)]
+                    inner = []
+                    straight = not any(x['k'] in ('IfStmt', 'ForStmt', 'WhileStmt', 'DoStmt', 'CXXForRangeStmt', 'SwitchStmt',
+                                                  'ConditionalOperator', 'CXXTryStmt', 'LambdaExpr') for x in H.nodes)
+                    for hn in H.nodes:
+                        if hn['k'] == 'CallExpr' and 'callee' in hn and H.unit.decl(hn['callee'])['tname'] == WRITE:
+                            ha = [subst(htt.t(x), sub) for x in hn['args']]
+                            g2 = H.unit.function_for_decl(hn['callee'])
+                            inner.append(('prim', 'first' if ha[1] == first and ha[0] == ('var', sd) else
+                                          'second' if ha[1] == second and ha[0] == ('var', sd) else '?', g2.targs if g2 else '?'))
+                    uses = [x for x in H.nodes if x['k'] == 'DeclRefExpr' and len(hs) == 1 and ('var', x['d']) == hs[0]]
+                    if not straight or len(hs) != 1 or len(uses) != len(inner):
+                        inner.append(('prim', '?', '?'))
+                    seq.extend(inner)
+                    helper_calls.add(nid)
                 elif n['k'] == 'CXXOperatorCallExpr' and 'callee' in n and f.unit.decl(n['callee']).get('op') == '()':
                     a = [tt.t(x) for x in n['args']]
                     if a and a[0] in functors and functors[a[0]] is not None:
@@ -1061,6 +1092,7 @@ def rule_schema_binary(m):
             others = [n for n in f.nodes if n['k'] == 'DeclRefExpr' and n['d'] == sd and n['i'] in body and
                       not any(n['i'] in f.descendants(c) for c in body if f.nodes[c]['k'] in ('CallExpr', 'CXXOperatorCallExpr')
                               and 'callee' in f.nodes[c] and (f.unit.decl(f.nodes[c]['callee'])['tname'] == WRITE or
+                                                              c in helper_calls or
                                                               f.unit.decl(f.nodes[c]['callee']).get('op') == '()'))]
             want = [('prim', 'first'), ('prim', 'second')] + ([] if _is_nolabel(outer) else [('codec', 'label(first,second)')])
             if [s[:2] for s in seq] != want:
